@@ -35,6 +35,7 @@ pub fn compose_table(lang: &str) -> Vec<(&'static str, &'static str, char)> {
             ("ÀÈÌÒÙàèìòù", "AEIOUaeiou", '\u{300}'),
         ],
         "ru" => vec![("Ёё", "Ее", '\u{308}')],
+        "xk" => vec![("がぎば", "かきは", '\u{3099}'), ("ぱ", "は", '\u{309a}'), ("ヴ", "ウ", '\u{3099}'), ("\u{fb2a}", "ש", '\u{5c1}')],
         _ => vec![],
     }
 }
@@ -44,6 +45,7 @@ pub fn expanding_table(lang: &str) -> Vec<(char, &'static str)> {
     match lang {
         "de" => vec![('ẞ', "SS"), ('ß', "ss")],
         "fr" => vec![('Æ', "AE"), ('æ', "ae"), ('Œ', "OE"), ('œ', "oe"), ('Ø', "OE"), ('ø', "oe")],
+        "xk" => vec![('ゟ', "より")],
         _ => vec![],
     }
 }
@@ -97,6 +99,35 @@ pub fn fold(lang: &str, c: char) -> Option<String> {
         }
     }
     None
+}
+
+/// Normalised spelling of one word by the harness's own tables: compose, fold accents, lower-case.
+pub fn norm_word(lang: &str, w: &str) -> String {
+    let mut out = String::new();
+    for c in compose(lang, &cv(w)) {
+        let folded = fold(lang, c).unwrap_or_else(|| c.to_string());
+        for x in folded.chars() {
+            out.extend(x.to_lowercase());
+        }
+    }
+    out
+}
+
+pub const FUNCTION_WORDS_TXT: &str = include_str!("../data/function_words.txt");
+
+/// The frozen function-word list of a language (normalised spellings): the specification of what a
+/// "function word" is, so that the monitors never have to ask the code under test.
+pub fn listed_function_words(lang: &str) -> BTreeSet<String> {
+    let mut out = BTreeSet::new();
+    for line in FUNCTION_WORDS_TXT.lines() {
+        let mut it = line.split(' ');
+        if it.next() == Some(lang) {
+            for w in it {
+                out.insert(norm_word(lang, w));
+            }
+        }
+    }
+    out
 }
 
 pub fn expected_title(lang: &str, title: &str) -> String {
